@@ -97,6 +97,9 @@ def run_one(sid, tier, all_checks):
             return
         env = dict(os.environ, PACTI_SRC=os.path.join(wt, "src"), VERIF_SEED=os.environ.get("VERIF_SEED", "0"))
         pids = [pid]
+        extra = [x.split("=")[1].split(",") for x in sys.argv if x.startswith("--checks=")]
+        if extra:
+            pids = extra[0]
         if all_checks:
             man = json.load(open(os.path.join(VERIF, "MANIFEST.json")))
             pids = [pid] + [c["property_id"] for c in man["checks"] if c["property_id"] != pid]
